@@ -43,6 +43,10 @@ type c61Op struct {
 	K     int   `json:"k,omitempty"` // range: start is K buckets before the level's end
 	M     int   `json:"m,omitempty"` // range: length in buckets
 	P     int   `json:"p,omitempty"` // range: number of pieces, divides M
+	// Alt selects the other entry point to the same functionality: add = set the clock
+	// and Add; latest = LatestBuckets (bucket by bucket); range = set the clock to the
+	// range's end and Recent / RecentList.
+	Alt bool `json:"alt,omitempty"`
 }
 
 type c61Case struct {
@@ -130,6 +134,7 @@ func c61Gen(t *rapid.T) c61Case {
 	}
 	for i := 0; i < n; i++ {
 		var op c61Op
+		op.Alt = rapid.IntRange(0, 3).Draw(t, "alt") == 0
 		switch k := rapid.IntRange(0, 19).Draw(t, "op"); {
 		case k < 10:
 			op.Kind = c61Add
@@ -287,7 +292,13 @@ func c61Prop(c c61Case, r *vp.Rec) error {
 		case c61Add:
 			T := c61Clamp(op.T)
 			f := Float(op.V)
-			ts.AddWithTime(&f, time.Unix(0, T))
+			if op.Alt {
+				clock.t = time.Unix(0, T)
+				ts.Add(&f)
+				r.Class("add:via-clock")
+			} else {
+				ts.AddWithTime(&f, time.Unix(0, T))
+			}
 			if float64(f) != float64(op.V) {
 				return fmt.Errorf("step %d: AddWithTime modified the caller's observation", i)
 			}
@@ -341,6 +352,25 @@ func c61Prop(c c61Case, r *vp.Rec) error {
 				} else {
 					got = value(mh.Hour())
 				}
+			} else if op.Alt && n < nb {
+				// the same buckets one by one, newest first
+				end := c61Ceil(horizon, res[lv])
+				bs := ts.LatestBuckets(lv, n)
+				if len(bs) != n {
+					return fmt.Errorf("step %d: LatestBuckets(level %d, %d) returned %d buckets", i, lv, n, len(bs))
+				}
+				for j, b := range bs {
+					inner, onA, onB := c61Sum(obs, end-int64(j+1)*size, end-int64(j)*size)
+					if g := value(b); !c61Match(g, inner, onA, onB) {
+						return fmt.Errorf("step %d: LatestBuckets(level %d, %d) with clock %d: bucket %d (%d,%d) = %v, observations in it sum to %v (on the edges: %v, %v)",
+							i, lv, n, T, j, end-int64(j+1)*size, end-int64(j)*size, g, inner, onA, onB)
+					}
+					got += value(b)
+				}
+				r.Class("latest:bucket-by-bucket")
+				if n > 0 {
+					continue // each bucket was checked; their sum has up to 2n edges
+				}
 			} else {
 				got = value(ts.Latest(lv, n))
 			}
@@ -370,7 +400,16 @@ func c61Prop(c c61Case, r *vp.Rec) error {
 			a := end - int64(k)*size
 			b := a + int64(m)*size
 			var got []Observable
-			if p == 1 {
+			if op.Alt && b <= end {
+				// "the last b-a" as seen from a clock that stands at b
+				clock.t = time.Unix(0, b)
+				if p == 1 {
+					got = []Observable{ts.Recent(time.Duration(b - a))}
+				} else {
+					got = ts.RecentList(time.Duration(b-a), p)
+				}
+				r.Class("range:via-recent")
+			} else if p == 1 {
 				got = []Observable{ts.Range(time.Unix(0, a), time.Unix(0, b))}
 			} else {
 				got = ts.ComputeRange(time.Unix(0, a), time.Unix(0, b), p)
